@@ -432,7 +432,7 @@ def dispOpen (hn : Str) : Option Str :=
   else if isTitle hn then some (S "title") else (contentKey hn).map (·.1)
 
 /-- the stage-7 kinds -/
-def akOk (kind : Str) : Bool := kind == S "author" || kind == S "contributor" || kind == S "name" || kind == S "email" || kind == S "url"
+def akOk (kind : Str) : Bool := kind == S "author" || kind == S "contributor" || kind == S "name" || kind == S "email" || kind == S "url" || kind == S "publisher" || kind == S "owner"
 
 theorem startAuthorKinds_isSome (c : Core) (kind : Str) (a : List (Str × Str)) : (startAuthorKinds c kind a).isSome = akOk kind := by
   unfold startAuthorKinds akOk
@@ -450,7 +450,13 @@ theorem startAuthorKinds_isSome (c : Core) (kind : Str) (a : List (Str × Str)) 
         · simp only [h4, Bool.false_eq_true, ↓reduceIte, Bool.false_or]
           by_cases h5 : (kind == S "url") = true
           · simp [h5]
-          · simp [h5]
+          · simp only [h5, Bool.false_eq_true, ↓reduceIte, Bool.false_or]
+            by_cases h6 : (kind == S "publisher") = true
+            · simp [h6]
+            · simp only [h6, Bool.false_eq_true, ↓reduceIte, Bool.false_or]
+              by_cases h7 : (kind == S "owner") = true
+              · simp [h7]
+              · simp [h7]
 
 theorem endAuthorKinds_isSome (o : Ops) (s : MSt) (kind : Str) : (endAuthorKinds o s kind).isSome = akOk kind := by
   unfold endAuthorKinds akOk
@@ -468,7 +474,13 @@ theorem endAuthorKinds_isSome (o : Ops) (s : MSt) (kind : Str) : (endAuthorKinds
         · simp only [h4, Bool.false_eq_true, ↓reduceIte, Bool.false_or]
           by_cases h5 : (kind == S "url") = true
           · simp [h5]
-          · simp [h5]
+          · simp only [h5, Bool.false_eq_true, ↓reduceIte, Bool.false_or]
+            by_cases h6 : (kind == S "publisher") = true
+            · simp [h6]
+            · simp only [h6, Bool.false_eq_true, ↓reduceIte, Bool.false_or]
+              by_cases h7 : (kind == S "owner") = true
+              · simp [h7]
+              · simp [h7]
 
 /-- the stage-4 / 5 / 7 kinds -/
 def lgOk (kind : Str) : Bool := kind == S "link" || kind == S "guid" || kind == S "category" || kind == S "enclosure" || akOk kind
@@ -1601,8 +1613,9 @@ theorem author_string_from_name_and_email (o : Ops) (d : D) (before : List Item)
     (hn0 : n.isEmpty = false) (he0 : e.isEmpty = false) :
     dget (syncAuthor o d) (S "author") = some (.s (n ++ S " (" ++ e ++ S ")")) := by
   have hne : last ≠ [] := by intro h; rw [h] at hn; simp [iget] at hn
-  unfold syncAuthor
-  simp only [listOf, hl, List.reverse_append, List.reverse_cons, List.reverse_nil, List.nil_append, List.cons_append]
+  have hk : S "author" ++ ['s'] = S "authors" := by decide +kernel
+  unfold syncAuthor syncKey
+  simp only [hk, listOf, hl, List.reverse_append, List.reverse_cons, List.reverse_nil, List.nil_append, List.cons_append]
   cases last with
   | nil => exact absurd rfl hne
   | cons p rest =>
@@ -1617,8 +1630,9 @@ theorem author_string_from_name (o : Ops) (d : D) (before : List Item) (last : I
     (hn0 : n.isEmpty = false) :
     dget (syncAuthor o d) (S "author") = some (.s n) := by
   have hne : last ≠ [] := by intro h; rw [h] at hn; simp [iget] at hn
-  unfold syncAuthor
-  simp only [listOf, hl, List.reverse_append, List.reverse_cons, List.reverse_nil, List.nil_append, List.cons_append]
+  have hk : S "author" ++ ['s'] = S "authors" := by decide +kernel
+  unfold syncAuthor syncKey
+  simp only [hk, listOf, hl, List.reverse_append, List.reverse_cons, List.reverse_nil, List.nil_append, List.cons_append]
   cases last with
   | nil => exact absurd rfl hne
   | cons p rest =>
